@@ -20,6 +20,7 @@
 package c12
 
 import (
+	"bytes"
 	"encoding/json"
 	"errors"
 	"fmt"
@@ -212,6 +213,10 @@ type step struct {
 
 	Path string `json:"-"` // resolved path as the model sees it
 	base string // resolved path of PathSym (what the URL is built from)
+	// every SETUP of a plan announces its own interleaved pair / client port, so that what a
+	// REFUSED SETUP carried can be told from what an accepted one negotiated
+	chanBase int
+	udpPort  int
 }
 
 type plan struct {
@@ -264,7 +269,7 @@ func decorate(t *rapid.T, s *step, happy bool) {
 	}
 }
 
-var malformedKinds = []string{"garbage", "noproto", "badprofile", "badinterleaved", "badport", "missing", "empty", "hugeport", "hugeport"}
+var malformedKinds = []string{"garbage", "noproto", "badprofile", "badinterleaved", "badport", "badafterinterleaved", "badafterinterleaved", "missing", "empty", "hugeport", "hugeport"}
 
 func modeText(t *rapid.T, mode string) string {
 	switch mode {
@@ -418,7 +423,7 @@ func genPlan(t *rapid.T, transport string) *plan {
 		p.Steps = append([]step{{Method: "OPTIONS", PathSym: "live"}}, p.Steps...)
 	}
 	p.End = rapid.SampledFrom([]string{"close", "close", "halfclose", "reset", "reset"}).Draw(t, "end")
-	p.CheckFrames = rapid.IntRange(0, 3).Draw(t, "checkFrames") == 0
+	p.CheckFrames = rapid.IntRange(0, 2).Draw(t, "checkFrames") == 0
 	p.Window = transport != "wsp" && rapid.Bool().Draw(t, "windowAtPlay")
 	return p
 }
@@ -445,6 +450,8 @@ type outcome struct {
 	framesSeen                       int
 	closedByTeardown                 bool
 	windows, udpSeen                 int
+	refusedWithChannels              int
+	relayChecked                     bool
 	consumePanics                    int
 }
 
@@ -464,11 +471,8 @@ func (w *world) resolve(sym string, pubN int64) string {
 	return "/" + sym
 }
 
-func transportHeader(s *step, udpPort int) (string, bool) {
-	ch := 0
-	if s.Track == "audio" {
-		ch = 2
-	}
+func transportHeader(s *step) (string, bool) {
+	ch, udpPort := s.chanBase, s.udpPort
 	mode := ""
 	if s.ModeText != "" {
 		mode = ";" + s.ModeText
@@ -484,6 +488,9 @@ func transportHeader(s *step, udpPort int) (string, bool) {
 		return "RTP/AVP/TCP;unicast;interleaved=abc" + mode, true
 	case "badport":
 		return "RTP/AVP;unicast;client_port=x-y" + mode, true
+	case "badafterinterleaved":
+		// a well-formed interleaved pair followed by a parameter no grammar derives
+		return fmt.Sprintf("RTP/AVP/TCP;unicast;interleaved=%d-%d;client_port=x-y%s", ch, ch+1, mode), true
 	case "hugeport":
 		// well-formed integers, but no UDP port: a server may refuse the SETUP or fail the
 		// PLAY later; either way a refused request must leave the session as it was
@@ -495,7 +502,7 @@ func transportHeader(s *step, udpPort int) (string, bool) {
 	}
 	switch s.Trans {
 	case "udp":
-		return fmt.Sprintf("RTP/AVP;unicast;client_port=%d-%d%s", udpPort+ch, udpPort+ch+1, mode), true
+		return fmt.Sprintf("RTP/AVP;unicast;client_port=%d-%d%s", udpPort, udpPort+1, mode), true
 	case "mcast":
 		return "RTP/AVP;multicast" + mode, true
 	}
@@ -581,34 +588,61 @@ func (w *world) runPlan(p *plan) (out outcome, rep *report, fail *failure, err e
 		return nil
 	}
 
-	// a UDP socket on the client port announced for the video track's RTP, to catch early
-	// media (any free port will do; the pairing with an even number is a convention the
-	// server does not depend on). Without a socket the case still runs, unobserved on UDP.
-	var udp *net.UDPConn
-	udpPort := 40000
-	for try := 0; try < 500 && udp == nil; try++ {
-		u, e := net.ListenUDP("udp4", &net.UDPAddr{IP: net.IPv4(127, 0, 0, 1)})
-		if e != nil {
-			time.Sleep(time.Millisecond)
-			continue
-		}
-		if port := u.LocalAddr().(*net.UDPAddr).Port; port < 65000 {
-			udp, udpPort = u, port
-		} else {
-			u.Close()
-		}
+	playOK := false                    // a PLAY was answered 2xx on this connection
+	refusedChans := map[string][]int{} // track → interleaved pairs that only refused SETUPs announced
+	playOKp := func() bool { return playOK }
+	// Every SETUP of the plan gets its own interleaved pair (4k / 4k+1 for the k-th SETUP,
+	// +2 on the audio track) and, over UDP, its own bound client port: what a refused SETUP
+	// announced can then be told from what an accepted one negotiated. The sockets also catch
+	// media that is sent before PLAY succeeded. Without a socket (machine out of ports) the
+	// case still runs, unobserved on that port.
+	type dgram struct {
+		port int
+		kind string
 	}
 	var udps []*net.UDPConn
-	if udp == nil {
-		evid.Class("machinery: no UDP socket, early media on UDP not observed in this case")
-	} else {
-		defer udp.Close()
-		udps = append(udps, udp)
-		// the audio track announces the next pair (port+2): observe it too when it is free
-		if u2, e := net.ListenUDP("udp4", &net.UDPAddr{IP: net.IPv4(127, 0, 0, 1), Port: udpPort + 2}); e == nil {
-			defer u2.Close()
-			udps = append(udps, u2)
+	var dgrams []dgram
+	nSetup := 0
+	for i := range p.Steps {
+		st := &p.Steps[i]
+		if st.Method != "SETUP" {
+			continue
 		}
+		st.chanBase = 4 * nSetup
+		if st.Track == "audio" {
+			st.chanBase += 2
+		}
+		st.udpPort = 40000 + 4*nSetup
+		nSetup++
+		if st.Trans != "udp" {
+			continue
+		}
+		for try := 0; try < 200; try++ {
+			u, e := net.ListenUDP("udp4", &net.UDPAddr{IP: net.IPv4(127, 0, 0, 1)})
+			if e != nil {
+				time.Sleep(time.Millisecond)
+				continue
+			}
+			if port := u.LocalAddr().(*net.UDPAddr).Port; port < 65000 {
+				st.udpPort = port
+				udps = append(udps, u)
+				defer u.Close()
+				break
+			}
+			u.Close()
+		}
+		if len(udps) == 0 || udps[len(udps)-1].LocalAddr().(*net.UDPAddr).Port != st.udpPort {
+			evid.Class("machinery: no UDP socket, media on that client port not observed in this case")
+		}
+	}
+	payloadKind := func(b []byte) string {
+		switch {
+		case bytes.Contains(b, []byte("C12PUMP!")):
+			return "video"
+		case bytes.Contains(b, []byte("C12AUDIO")):
+			return "audio"
+		}
+		return ""
 	}
 	udpGot := func() int {
 		n := 0
@@ -626,12 +660,62 @@ func (w *world) runPlan(p *plan) (out outcome, rep *report, fail *failure, err e
 					if k, _, e := syscall.Recvfrom(int(fd), buf, syscall.MSG_DONTWAIT); e == nil && k >= 0 {
 						more = true
 						n++
+						if len(dgrams) < 4096 {
+							dgrams = append(dgrams, dgram{u.LocalAddr().(*net.UDPAddr).Port, payloadKind(buf[:k])})
+						}
 					}
 					return true
 				})
 			}
 		}
 		return n
+	}
+	// after a successful PLAY media may only use what the last ACCEPTED SETUP of its track
+	// negotiated: the interleaved channel on TCP / ws / the WSP data channel, the client port
+	// over UDP
+	wrongFrame := func(f *rtspc.Frame) string {
+		kind := payloadKind(f.Payload)
+		if kind == "" {
+			return ""
+		}
+		if m.Setup[kind] != "tcp" {
+			return fmt.Sprintf("a %s packet arrives interleaved (channel %d) although the accepted SETUPs are %v", kind, f.Channel, m.Setup)
+		}
+		if int(f.Channel) != m.Chan[kind] {
+			return fmt.Sprintf("a %s RTP packet arrives on interleaved channel %d, the last accepted SETUP of that track negotiated %d-%d", kind, f.Channel, m.Chan[kind], m.Chan[kind]+1)
+		}
+		return ""
+	}
+	wspChannels := func() *failure {
+		if wl == nil {
+			return nil
+		}
+		fresh := wl.takeFrames()
+		if m.Released {
+			return nil // after TEARDOWN: frames still in flight on the other socket belong to the session that ended
+		}
+		for _, f := range fresh {
+			f := f
+			if why := wrongFrame(&f); why != "" && playOKp() {
+				return &failure{"media-channel", "WSP data channel: " + why}
+			}
+		}
+		return nil
+	}
+	wrongDgrams := func() string {
+		defer func() { dgrams = dgrams[:0] }()
+		if m.Released {
+			return "" // after TEARDOWN: what is still in flight belongs to the session that ended
+		}
+		for _, d := range dgrams {
+			if d.kind == "" {
+				continue
+			}
+			if m.Setup[d.kind] != "udp" || m.Port[d.kind] != d.port {
+				return fmt.Sprintf("a %s RTP datagram arrives on client port %d; accepted SETUPs %v, negotiated ports %v", d.kind, d.port, m.Setup, m.Port)
+			}
+		}
+		return ""
 	}
 
 	// The window "player attached to its stream, 200 to PLAY not yet written" is owned
@@ -663,7 +747,6 @@ func (w *world) runPlan(p *plan) (out outcome, rep *report, fail *failure, err e
 	}
 
 	session := ""
-	playOK := false // a PLAY was answered 2xx on this connection
 	bad := func(check, format string, a ...any) *failure {
 		return &failure{check, fmt.Sprintf(format, a...)}
 	}
@@ -714,7 +797,7 @@ func (w *world) runPlan(p *plan) (out outcome, rep *report, fail *failure, err e
 			if s.Deco != "" && s.DecoAt == "control" {
 				url += s.Deco + "x"
 			}
-			if v, present := transportHeader(s, udpPort); present {
+			if v, present := transportHeader(s); present {
 				if s.HdrDeco == "transport" && s.Malformed == "" {
 					v += ";x-verif=" + hdrOctets
 				}
@@ -797,6 +880,9 @@ func (w *world) runPlan(p *plan) (out outcome, rep *report, fail *failure, err e
 			return out, rep, f, nil
 		}
 		var serr error
+		if f := wspChannels(); f != nil {
+			return fin(f)
+		}
 		if f := dataFrames(); f != nil {
 			return fin(f)
 		} else if out.framesSeen > 0 && !playOK {
@@ -835,6 +921,9 @@ func (w *world) runPlan(p *plan) (out outcome, rep *report, fail *failure, err e
 				out.framesSeen++
 				if !playOK {
 					return fin(bad("media-before-play", "step %d (%s): interleaved frame (channel %d, %d bytes) before any successful PLAY", i, ex.Req, it.Frame.Channel, len(it.Frame.Payload)))
+				}
+				if why := wrongFrame(it.Frame); why != "" {
+					return fin(bad("media-channel", "step %d (%s): %s", i, ex.Req, why))
 				}
 				continue
 			}
@@ -886,8 +975,18 @@ func (w *world) runPlan(p *plan) (out outcome, rep *report, fail *failure, err e
 				out.n455++
 			}
 		}
+		if f := wspChannels(); f != nil { // judged against the model the frames were sent under
+			return fin(f)
+		}
 		if take && x.apply != nil {
 			x.apply(m)
+		}
+		if s.Method == "SETUP" && r.Status >= 400 && s.Trans == "tcp" {
+			switch s.Malformed {
+			case "", "noproto", "badprofile", "badafterinterleaved": // these carried interleaved=chanBase
+				refusedChans[s.Track] = append(refusedChans[s.Track], s.chanBase)
+				out.refusedWithChannels++
+			}
 		}
 		if take && s.Method == "PLAY" {
 			playOK = true
@@ -934,6 +1033,11 @@ func (w *world) runPlan(p *plan) (out outcome, rep *report, fail *failure, err e
 			if n := udpGot(); n > 0 {
 				return out, rep, bad("media-before-play", "step %d (%s): %d UDP datagrams arrived on the announced client port before any successful PLAY", i, ex.Req, n), nil
 			}
+		} else {
+			out.udpSeen += udpGot()
+			if why := wrongDgrams(); why != "" {
+				return out, rep, bad("media-channel", "after step %d (%s): %s", i, ex.Req, why), nil
+			}
 		}
 		if f := checkResources(fmt.Sprintf("after step %d (%s → %d)", i, ex.Req, r.Status)); f != nil {
 			return out, rep, f, nil
@@ -941,6 +1045,9 @@ func (w *world) runPlan(p *plan) (out outcome, rep *report, fail *failure, err e
 	}
 
 	// optional liveness evidence: media does arrive after a successful PLAY over TCP
+	if f := wspChannels(); f != nil {
+		return out, rep, f, nil
+	}
 	if f := dataFrames(); f != nil {
 		return out, rep, f, nil
 	} else if wl != nil && out.framesSeen > 0 && !playOK {
@@ -948,6 +1055,9 @@ func (w *world) runPlan(p *plan) (out outcome, rep *report, fail *failure, err e
 	}
 	if alive && p.CheckFrames && wl != nil && wl.data != nil && m.St == stPlaying {
 		srv.WaitFor(2*time.Second, func() bool { w.pump(1); dataFrames(); return out.framesSeen > 0 })
+		if f := wspChannels(); f != nil {
+			return out, rep, f, nil
+		}
 	}
 	if alive && p.CheckFrames && wl == nil && m.St == stPlaying && !m.hasSetup("udp") && !m.hasSetup("mcast") {
 		deadline := time.Now().Add(2 * time.Second)
@@ -956,15 +1066,71 @@ func (w *world) runPlan(p *plan) (out outcome, rep *report, fail *failure, err e
 			it, e := c.ReadItemTimeout(10 * time.Millisecond)
 			if e == nil && it.Frame != nil {
 				out.framesSeen++
+				if why := wrongFrame(it.Frame); why != "" {
+					return out, rep, bad("media-channel", "while playing: %s", why), nil
+				}
 			} else if e != nil && !errors.Is(e, rtspc.ErrTimeout) {
 				return out, rep, bad("framing", "while playing: %v", e), nil
 			}
 		}
 	}
 
+	// recording: what the publisher sends on the channel its last ACCEPTED SETUP negotiated is
+	// relayed to a consumer of the stream, what it sends on a channel that only a refused
+	// SETUP announced (or on no channel of the session at all) is not
+	if rc, ok := c.(*rtspc.Client); ok && alive && m.St == stRecording {
+		track := ""
+		for _, tr := range []string{"video", "audio"} {
+			if m.Setup[tr] == "tcp" {
+				track = tr
+				break
+			}
+		}
+		if pubSt := media.Get(m.Path); track != "" && pubSt != nil {
+			badCh := 250
+			if n := len(refusedChans[track]); n > 0 {
+				badCh = refusedChans[track][n-1]
+			}
+			mk := func(tag string, seq uint16) []byte {
+				if track == "audio" {
+					return rtppack.Sequence([][]byte{rtppack.AacHbr([][]byte{[]byte(tag)})}, true, 97, 1024*uint32(seq), seq, 0xAE1A)[0].Marshal()
+				}
+				return rtppack.Sequence([][]byte{append([]byte{0x41}, tag...)}, true, 96, 3000*uint32(seq), seq, 0xAE1A)[0].Marshal()
+			}
+			rec := mediah.NewRec("c12-relay")
+			cid := pubSt.StartConsume(rec, media.RTPPacket, "c12-relay")
+			has := func(tag string) bool {
+				for _, pk := range rec.Got() {
+					if rp, ok := pk.(*rtp.Packet); ok && bytes.Contains(rp.Data, []byte(tag)) {
+						return true
+					}
+				}
+				return false
+			}
+			rc.WriteFrame(byte(badCh), mk("C12-RELAY-WRONG-CHANNEL", 1))
+			rc.WriteFrame(byte(m.Chan[track]), mk("C12-RELAY-RIGHT-CHANNEL", 2))
+			relayed := srv.WaitFor(releaseBound/2, func() bool { return has("C12-RELAY-RIGHT-CHANNEL") })
+			wrong := has("C12-RELAY-WRONG-CHANNEL")
+			pubSt.StopConsume(cid)
+			out.relayChecked = true
+			if !relayed {
+				return out, rep, bad("record-channel", "recording (%s): an RTP packet sent on interleaved channel %d, which the last accepted SETUP of the %s track negotiated, did not reach a consumer of %s", m, m.Chan[track], track, m.Path), nil
+			}
+			if wrong {
+				return out, rep, bad("record-channel", "recording (%s): an RTP packet sent on interleaved channel %d, which no accepted SETUP negotiated, was relayed to a consumer of %s", m, badCh, m.Path), nil
+			}
+		}
+	}
+
 	out.windows = int(atomic.LoadInt32(&windows))
+	if alive && p.CheckFrames && m.St == stPlaying && m.hasSetup("udp") {
+		srv.WaitFor(300*time.Millisecond, func() bool { w.pump(1); out.udpSeen += udpGot(); return out.udpSeen > 0 })
+	}
 	if playOK {
-		out.udpSeen = udpGot() // evidence that the UDP observation is not vacuous
+		out.udpSeen += udpGot() // also the evidence that the UDP observation is not vacuous
+		if why := wrongDgrams(); why != "" {
+			return out, rep, bad("media-channel", "while playing: %s", why), nil
+		}
 	}
 	// disconnect: everything the session held is released
 	if alive {
@@ -1068,6 +1234,12 @@ func record(p *plan, out outcome) {
 	}
 	if out.closedByTeardown {
 		evid.Class("ended by TEARDOWN")
+	}
+	if out.relayChecked {
+		evid.Class("recording: relay of the accepted channel checked")
+	}
+	if out.refusedWithChannels > 0 && (out.framesSeen > 0 || out.udpSeen > 0 || out.relayChecked) {
+		evid.Class("media observed after a refused SETUP that carried its own channels")
 	}
 	if out.udpSeen > 0 {
 		evid.Class("UDP datagrams seen on the client port after PLAY")
